@@ -10,7 +10,7 @@ const char *behav_name(int b) {
 	static const char *n[] = {"honest", "foreign-id", "stale-gen", "other-hash", "broken-link", "lc-256", "lc-2^32", "low-level",
 		"wrong-agg-time", "wrong-pub-time", "bad-shape", "other-input", "altered-right-link", "status-err", "error-pdu",
 		"bad-mac", "other-key", "other-alg", "other-ver", "no-header", "no-mac", "truncated", "garbage-pdu", "conf-only",
-		"with-conf", "no-cal", "index-gap", "index-short", "index-prefix", "index-shape"};
+		"with-conf", "no-cal", "index-gap", "index-short", "index-prefix", "index-shape", "status-with-content", "extra-links"};
 	return (b >= 0 && b < B__COUNT) ? n[b] : "?";
 }
 
@@ -366,6 +366,7 @@ std::string World::make_signature(const std::string &hash, uint64_t level, uint6
 
 std::string World::aggr_reply(const ReqInfo &rq, const EndpointCfg &ep, int behav, uint64_t subseed, ReplyMeta &meta) {
 	Rng rng(sim::mix(subseed, 0xa66));
+	if (behav == B_EXTRA_LINKS) behav = B_HONEST; // calendar-chain deviation of the extender
 	meta = ReplyMeta();
 	meta.behav = behav;
 	uint64_t id = rq.id;
@@ -382,14 +383,15 @@ std::string World::aggr_reply(const ReqInfo &rq, const EndpointCfg &ep, int beha
 		resp.add(Tlv::str(0x05, "ref status error"));
 		return seal(ep, true, {resp}, behav, subseed);
 	}
-	resp.add(Tlv::u64(0x04, 0));
+	static const uint64_t odd_status[] = {0x100000000ULL, 0xffffffff00000000ULL, 0x8000000000000000ULL, 0x0101, 0x0300, 0x200000000ULL};
+	resp.add(Tlv::u64(0x04, behav == B_STATUS_CONTENT ? odd_status[rng.below(6)] : 0));
 	uint64_t t = next_round;
 	std::string root; int rl;
 	std::string hash = rq.hash;
 	int req_level = (int)std::min<uint64_t>(rq.has_level ? rq.level : 0, 255);
 	auto cs = build_chains(hash, 0, t, subseed, behav, root, rl, 0, req_level);
 	bool in_range = true;
-	if (behav == B_HONEST || behav == B_WITH_CONF || behav == B_NO_CAL) {
+	if (behav == B_HONEST || behav == B_WITH_CONF || behav == B_NO_CAL || behav == B_STATUS_CONTENT) {
 		// a request whose level leaves no room for the tree above it cannot be served honestly
 		std::string o; int el = 0, lv = req_level;
 		for (auto &c : cs) { if (!fold_agg(c, lv, o, el)) { in_range = false; break; } lv = el; }
@@ -438,6 +440,7 @@ std::string World::ext_reply(const ReqInfo &rq, const EndpointCfg &ep, int behav
 	uint64_t t = rq.agg_time;
 	uint64_t p = rq.has_pub_time ? rq.pub_time : head();
 	bool impossible = !rq.has_agg_time || t > head() || p > head() || p < t || t == 0;
+	static const uint64_t odd_status[] = {0x100000000ULL, 0xffffffff00000000ULL, 0x8000000000000000ULL, 0x0101, 0x0300, 0x200000000ULL};
 	if (behav == B_STATUS_ERR || impossible) {
 		static const uint64_t codes[] = {0x0101, 0x0102, 0x0103, 0x0104, 0x0105, 0x0106, 0x0107, 0x0200, 0x0201, 0x0300, 0x0301};
 		resp.add(Tlv::u64(0x04, impossible ? 0x0104 : codes[rng.below(11)]));
@@ -445,7 +448,7 @@ std::string World::ext_reply(const ReqInfo &rq, const EndpointCfg &ep, int behav
 		meta.behav = B_STATUS_ERR;
 		return seal(ep, true, {resp}, behav == B_STATUS_ERR ? B_HONEST : behav, subseed);
 	}
-	resp.add(Tlv::u64(0x04, 0));
+	resp.add(Tlv::u64(0x04, behav == B_STATUS_CONTENT ? odd_status[rng.below(6)] : 0));
 	resp.add(Tlv::u64(0x12, head()));
 	uint64_t ct = t, cp = p;
 	if (behav == B_WRONG_AGG_TIME) ct = t > 1 && rng.chance(1, 2) ? t - 1 : t + 1;
@@ -453,6 +456,15 @@ std::string World::ext_reply(const ReqInfo &rq, const EndpointCfg &ep, int behav
 	if (ct > cp) cp = ct;
 	CalChain cc = cal.chain(ct, cp);
 	if (behav == B_BAD_SHAPE && !cc.links.empty()) { size_t k = rng.below(cc.links.size()); cc.links[k].left = !cc.links[k].left; }
+	if (behav == B_EXTRA_LINKS) {
+		// still folds to some root and keeps input, times and (as a prefix) every genuine right link - only the shape betrays it
+		int n = 1 + (int)rng.below(3);
+		bool at_input = rng.chance(2, 3);
+		for (int i = 0; i < n; i++) {
+			Link l; l.left = at_input ? false : rng.chance(1, 2); l.sib = imprint(1, "surplus " + std::to_string(subseed) + "/" + std::to_string(i));
+			if (at_input) cc.links.insert(cc.links.begin(), l); else cc.links.push_back(l);
+		}
+	}
 	if (behav == B_OTHER_INPUT) cc.input = imprint(1, "other input " + std::to_string(subseed));
 	if (behav == B_ALTERED_RIGHT_LINK && !cc.links.empty()) {
 		std::vector<size_t> rights;
